@@ -103,7 +103,10 @@ namespace occa {
                type.referenceToken)) {
             continue;
           }
-          operatorToken opToken(arg.source->origin,
+          // Unnamed arguments don't have a source token
+          operatorToken opToken((arg.source
+                                 ? arg.source->origin
+                                 : kernelSmnt.source->origin),
                                 op::bitAnd);
           type.setReferenceToken(&opToken);
         }
